@@ -110,17 +110,17 @@ def FirstGrads : {a : Idx} → {ea : Enc a} → {c : Idx} → {ec : Enc c} → C
     walking its layers in reverse from `ec g` succeeds, ends in `ea (gnet.bwd x g)`, and records for the
     chain's first layer the weight gradient of the gradient the rest handed back -/
 theorem back_walk : ∀ {a : Idx} {ea : Enc a} {c : Idx} {ec : Enc c} (ch : Chain a ea c ec) (x : V a.T) (g : V c.T)
-    (k : ℕ) (t : Trace ℝ) (pa pp : List (Tensor ℝ)) (pr : List (Recorded ℝ)), Real ch x →
-    pa.length = k → pp.length = k → pr.length = k →
-    t.act = pa ++ (ea x :: acts ch x) → t.pre = pp ++ pres ch x → t.recs = pr ++ recs ch x →
+    (k : ℕ) (t : Trace ℝ) (pa pp : List (Tensor ℝ)) (pr : List (Recorded ℝ)) (qa qp : List (Tensor ℝ)) (qr : List (Recorded ℝ)),
+    Real ch x → pa.length = k → pp.length = k → pr.length = k →
+    t.act = pa ++ (ea x :: acts ch x) ++ qa → t.pre = pp ++ pres ch x ++ qp → t.recs = pr ++ recs ch x ++ qr →
     ∃ ws bs gs, backSpec t (List.zip (List.range' k (layers ch).length) (layers ch)).reverse (ec g) = .ok (ws, bs, gs) ∧
       gs.getLast?.getD (ec g) = ea ((gnet ch).bwd x g) ∧ gs.length = (layers ch).length ∧
       FirstGrads ch x g ws bs
-  | _, _, _, _, .nil _ _, x, g, k, t, pa, pp, pr, _, _, _, _, _, _, _ => ⟨[], [], [], rfl, rfl, rfl, trivial⟩
-  | _, ea, _, ec, @Chain.cons _ _ _ _ eb _ l f bwd pre rc wg rest, x, g, k, t, pa, pp, pr, h, hpa, hpp, hpr, hact, hpre, hrec => by
+  | _, _, _, _, .nil _ _, x, g, k, t, pa, pp, pr, _, _, _, _, _, _, _, _, _, _ => ⟨[], [], [], rfl, rfl, rfl, trivial⟩
+  | _, ea, _, ec, @Chain.cons _ _ _ _ eb _ l f bwd pre rc wg rest, x, g, k, t, pa, pp, pr, qa, qp, qr, h, hpa, hpp, hpr, hact, hpre, hrec => by
     have hlen := lengths rest (f x)
     obtain ⟨ws1, bs1, gs1, h1, h2, h3, _⟩ := back_walk rest (f x) g (k + 1) t
-      (pa ++ [ea x]) (pp ++ [pre x]) (pr ++ [rc x]) h.2.2 (by simp [hpa]) (by simp [hpp]) (by simp [hpr])
+      (pa ++ [ea x]) (pp ++ [pre x]) (pr ++ [rc x]) qa qp qr h.2.2 (by simp [hpa]) (by simp [hpp]) (by simp [hpr])
       (by rw [hact]; simp [acts]) (by rw [hpre]; simp [pres]) (by rw [hrec]; simp [recs])
     have hsplit : (List.zip (List.range' k (layers (Chain.cons (ea := ea) (eb := eb) l f bwd pre rc wg rest)).length)
           (layers (Chain.cons (ea := ea) (eb := eb) l f bwd pre rc wg rest))).reverse =
@@ -131,17 +131,17 @@ theorem back_walk : ∀ {a : Idx} {ea : Enc a} {c : Idx} {ec : Enc c} (ch : Chai
     have hga : L.get t.act k = .ok (ea x) := by
       rw [hact]
       simp only [L.get, L.get?_eq]
-      rw [List.getElem?_append_right (by omega)]
+      rw [List.getElem?_append_left (by simp; omega), List.getElem?_append_right (by omega)]
       simp [hpa]
     have hgp : L.get t.pre k = .ok (pre x) := by
       rw [hpre]
       simp only [L.get, L.get?_eq]
-      rw [List.getElem?_append_right (by omega)]
+      rw [List.getElem?_append_left (by simp [pres]; omega), List.getElem?_append_right (by omega)]
       simp [hpp, pres]
     have hgr : L.get t.recs k = .ok (rc x) := by
       rw [hrec]
       simp only [L.get, L.get?_eq]
-      rw [List.getElem?_append_right (by omega)]
+      rw [List.getElem?_append_left (by simp [recs]; omega), List.getElem?_append_right (by omega)]
       simp [hpr, recs]
     simp only [backSpec, hga, hgp, hgr, h.2.1]
     refine ⟨_, _, _, rfl, ?_, ?_, ?_⟩
@@ -169,7 +169,7 @@ theorem network_gradient {a : Idx} {ea : Enc a} {c : Idx} {ec : Enc c} (n : Netw
   rw [hn, forward_fold ch x hr] at hf
   simp only [] at hf
   obtain ⟨ws, bs, gs, h1, h2, h3, h4⟩ := back_walk ch x g 0
-    { pre := pres ch x, act := ea x :: acts ch x, recs := recs ch x } [] [] [] hr rfl rfl rfl rfl rfl rfl
+    { pre := pres ch x, act := ea x :: acts ch x, recs := recs ch x } [] [] [] [] [] [] hr rfl rfl rfl (by simp) (by simp) (by simp)
   have hb := backward_eq_backSpec n hc (ec g) { pre := pres ch x, act := ea x :: acts ch x, recs := recs ch x }
   rw [hn, List.range_eq_range', h1] at hb
   simp only [] at hb
